@@ -606,8 +606,13 @@ Fixpoint no_dups {K} (eqb : K -> K -> bool) (l : list K) : bool :=
   match l with [] => true | x :: r => negb (existsb (eqb x) r) && no_dups eqb r end.
 
 (* Group: for every distinct member, in order of first appearance, the ascending list of its positions *)
-Definition s_group {K} (eqb : K -> K -> bool) (l : list K) : val :=
-  VL (map (fun k => VL (positions_of eqb k 0 l)) (dedup_by eqb [] l)).
+(* one group per member that matches no earlier member, in that order; the group lists every position matching it *)
+Definition s_group {K} (eqb : K -> K -> bool) (d : K) (l : list K) : val :=
+  VL (map (fun k => VL (positions_of eqb k 0 l)) (firsts eqb d l)).
+(* Match is an equivalence on the members (decidable check; it fails only for NaN-like values) *)
+Definition eqv_on (e : val -> val -> bool) (l : list val) : bool :=
+  forallb (fun x => e x x && forallb (fun y => (negb (e x y) || e y x) &&
+                                      forallb (fun z => negb (e x y && e y z) || e x z) l) l) l.
 
 (* Floor: an integer when the floored value lies strictly inside (-2^63, 2^63), otherwise the (already integral) real *)
 Definition s_floor_fits : val -> bool := floor_fits_gen true.
@@ -655,8 +660,8 @@ Definition s_monad (f : string) (a : val) : res :=
      | _ => Err end) else
   if fis f "eval_monad_groupby" then
     (match a with
-     | VS s => Ok (s_group Z.eqb s)
-     | VL l => Ok (s_group s_same l)
+     | VS s => Ok (s_group Z.eqb 0 s)
+     | VL l => Ok (s_group s_same VU l)
      | _ => Err end) else
   if fis f "eval_monad_range" then
     (match a with
@@ -688,9 +693,13 @@ Definition dom_monad (f : string) (a : val) : bool :=
   if fis f "eval_monad_groupby" then
     (match a with
      | VS _ => true
+     | VL l => forallb (fun x => forallb (fun y => match_kinds_ok x y && negb (k_close x y)) l) l && eqv_on s_same l
+     | _ => false end) else
+  if fis f "eval_monad_range" then
+    (match a with
+     | VS _ => true
      | VL l => forallb (fun x => forallb (fun y => match_kinds_ok x y && negb (k_close x y)) l) l
      | _ => false end) else
-  if fis f "eval_monad_range" then (match a with VS _ | VL _ => true | _ => false end) else
   false.
 
 Definition k_monad (f : string) (a : val) : string :=
